@@ -10,6 +10,9 @@ Streams (model vs real code)
              orders forced through a shim for `os` inside jedi.file_io) vs Model.Walk.walkRoot:
              the ordered list of (is_file, path) events
   split      helpers.split_search_string vs Model.Search.splitSearchString
+  prefilter  the filter step of search_in_file_ios / _check_fs (does a file with these bytes reach the parser?)
+             vs Model.Prefilter.passes with the pattern, step order and flags the translator transcribed;
+             the word characters of python's re are a table in the request
   script     Script.search / complete_search vs Model.Search.searchFilter over Script.get_names
   search     Project.search / complete_search (x all_scopes x type prefix x patched limits) vs
              Model.Search.projectSearch fed with what the generator knows about every file
@@ -78,7 +81,8 @@ MANIFEST = dict(
          'start / end / middle, CJK, Cyrillic, Greek, case mappings that change length, names not in NFKC normal form, '
          'combining marks and vowel signs, in files written as UTF-8 with and without BOM, with declared 8-bit and '
          'multi-byte codecs, with LF / CRLF / CR newlines; judged by the ast oracle on SOURCE spelling and code point '
-         'columns.',
+         'columns. Stream prefilter: Model.Prefilter.passes against the real filter step (search_in_file_ios with '
+         'load_module_from_path replaced by a recorder) on small texts around such identifiers in all those encodings.',
     note='Modelled not verified: os.walk / os.scandir (listing order is a parameter, the shim and the real order are '
          'both exercised), pathlib suffix (checked stream), the regex pre-filter inside projectSearch (parameter `mentions`, '
          "computed by the harness with python's re on the decoded text; Model.Prefilter models the matching itself with "
@@ -111,6 +115,30 @@ def _load_own_known(ctx):
     ctx.known[:] = [k for k in ctx.known if k.get('property') != ctx.pid or k['id'] in ids]
     have = {k['id'] for k in ctx.known}
     ctx.known += [k for k in own if k['id'] not in have and k['property'] == ctx.pid]
+
+
+# ----------------------------------------------------------------- the pre-filter pattern
+
+_pattern_shape = []
+
+
+def prefilter_regex(word, complete):
+    """the pattern of search_in_file_ios on the DECODED text, in the shape the translator transcribed
+    (Gen.C19.prefilterPattern): `\\b` name (`\\b` unless complete), or - after the proposed fix
+    c19-prefilter-non-word-edge - each `\\b` only next to a `\\w` character of the name.  It feeds the
+    parameter `mentions` of the model and decides which files count against the parse limit."""
+    if not _pattern_shape:
+        guarded = False
+        try:
+            with open(os.path.join(common.LEAN_DIR, 'JediModel', 'Gen', 'C19.lean'), encoding='utf-8') as f:
+                m = re.search(r'def prefilterPattern : List String := (.*)', f.read())
+            guarded = bool(m) and 'if name starts with' in m.group(1)
+        except OSError:
+            pass
+        _pattern_shape.append(guarded)
+    lead = r'\b' if not _pattern_shape[0] or re.match(r'\w', word) else ''
+    trail = '' if complete else (r'\b' if not _pattern_shape[0] or re.search(r'\w$', word) else '')
+    return re.compile(lead + re.escape(word) + trail)
 
 
 # ----------------------------------------------------------------- listing order
@@ -644,6 +672,91 @@ def stream_walk(ctx, reqs):
     return cases, roots
 
 
+# ----------------------------------------------------------------- stream: prefilter
+
+class _BytesIO:
+    def __init__(self, path, data):
+        self.path, self._d = path, data
+
+    def read(self):
+        return self._d
+
+
+def prefilter_impl(name, complete, data):
+    """does the real search_in_file_ios / _check_fs hand a file with these bytes to the parser?
+    load_module_from_path is replaced by a recorder (the module it returns `is_compiled`, so nothing else
+    of jedi runs).  -> True / False / 'TypeError'"""
+    from jedi.inference import references
+    seen = []
+
+    class _M:
+        def is_compiled(self):
+            return True
+
+    def rec(inference_state, file_io, *a, **k):
+        seen.append(file_io)
+        return _M()
+    old = references.load_module_from_path
+    references.load_module_from_path = rec
+    try:
+        list(references.search_in_file_ios(None, [_BytesIO(Path('/nonexistent/m.py'), data)], name, complete=complete))
+    except TypeError:
+        return 'TypeError'
+    finally:
+        references.load_module_from_path = old
+    return bool(seen)
+
+
+PF_CONTEXT = [' ', '', '(', ')', '=', '.', ',', ':', '\n', '\r\n', '\t', '#', '"', 'x', '_', '1', 'é', 'ß', '变', '\u0301',
+              '·', 'я', '²', '\u00a0', '\ufeff']
+
+
+def stream_prefilter(ctx, reqs):
+    """Model.Prefilter.passes (pattern, step order, flags of the source) vs the real filter step, on small
+    texts around identifiers with letters outside ASCII, in several encodings"""
+    from parso.utils import python_bytes_to_unicode
+    rng = ctx.subrng('prefilter')
+    names = sorted({i for s in CL.UNI_STEMS + CL.STEMS[:2] for i in CL.idents_of(s)})
+    cases = []
+    for i in range(ctx.size(400, 6000)):
+        name = rng.choice(names)
+        complete = rng.random() < 0.4
+        if complete and rng.random() < 0.7:
+            name = name[:rng.randint(1, len(name))]
+        c = rng.random()
+        if c < 0.7:
+            inner = name
+        elif c < 0.85:
+            inner = name[:-1] or 'q'                 # the word itself does not occur
+        else:
+            inner = rng.choice(names)
+        text = ''.join(rng.choice(PF_CONTEXT) for _ in range(rng.randint(0, 3))) + inner + \
+            ''.join(rng.choice(PF_CONTEXT) for _ in range(rng.randint(0, 3)))
+        if rng.random() < 0.2:
+            text = text + rng.choice(PF_CONTEXT) + inner
+        fits = []
+        for enc, decl in CL.ENCODINGS:
+            t = text if decl is None else decl + '\n' + text
+            try:
+                if t.encode(enc).decode(enc) == t:
+                    fits.append((enc, t))
+            except UnicodeError:
+                pass
+        enc, t = rng.choice(fits)
+        data = t.encode(enc)
+        if rng.random() < 0.05:
+            data = data[:-1] + bytes([rng.choice([0xff, 0xe9, 0x80])])      # undecodable tail (errors='replace')
+        text = python_bytes_to_unicode(data, errors='replace')
+        impl = prefilter_impl(name, complete, data)
+        chars_ = sorted(set(text + name))
+        if any(ord(ch) > 0xffff for ch in chars_):
+            continue
+        reqs.append({'op': 'prefilter', 'name': name, 'complete': complete, 'text': text, 'data': list(data),
+                     'words': ''.join(ch for ch in chars_ if re.match(r'\w', ch))})
+        cases.append((('prefilter', {'name': name, 'complete': complete, 'text': text, 'enc': enc}), impl))
+    return cases
+
+
 # ----------------------------------------------------------------- stream: split
 
 def stream_split(ctx, reqs):
@@ -762,7 +875,7 @@ def script_oracle(ctx, case, q, gn, impl):
 def build_search_request(t, root, mode, q, complete, all_scopes, parse_limit, open_limit):
     wt, _, word = q.rpartition(' ')
     wt = 'function' if wt == 'def' else wt
-    regex = re.compile(r'\b' + re.escape(word) + (r'' if complete else r'\b'))
+    regex = prefilter_regex(word, complete)
     table = []
     strings = [word]
     tid = [0]
@@ -866,7 +979,7 @@ def search_oracle(ctx, t, root, case, q, complete, all_scopes, parse_limit, impl
            % ('complete_search' if complete else 'search', q, all_scopes))
     negative_check(ctx, t, case, got, how)
     # ---- completeness
-    regex = re.compile(r'\b' + re.escape(word) + (r'' if complete else r'\b'))
+    regex = prefilter_regex(word, complete)
     mention_files = [rel for rel, f in py_files(t) if regex.search(f['content'])]
     nontrivial = False
     if len(mention_files) <= parse_limit:
@@ -1205,7 +1318,7 @@ def clash_oracle(ctx, t, root, case, q, complete, all_scopes, parse_limit, impl5
         ctx.count(stream, key, nontrivial=False, bucket='dotted')
         return []
     missing = []
-    regex = re.compile(r'\b' + re.escape(word) + (r'' if complete else r'\b'))
+    regex = prefilter_regex(word, complete)
     mention_files = [rel for rel, f in CL.src_files(t) if regex.search(f['content'])]
     defs, mods = clash_expected(t, q, complete, all_scopes)
     mod_names = {m for m, _, _ in CL.module_names(t)}
@@ -1430,6 +1543,21 @@ def compare(ctx, cases, answers):
                 # failing-input search: the walk oracles already ran on this input (stream_walk);
                 # for except_paths variants run them now
                 ctx.notes.append('walk disagreement on mode=%s' % case['mode'])
+        elif stream == 'prefilter':
+            ctx.count('prefilter', repr(case), nontrivial=not case['name'].isascii(),
+                      bucket='%s/%s/%s' % (impl, 'complete' if case['complete'] else 'exact', CL.nonascii_shape(case['name'])),
+                      sample=dict(case, passes=impl))
+            if ans != impl:
+                ctx.tie_broken('correspondence:prefilter', short({'case': case, 'impl': impl, 'model': ans}, 1500))
+                # failing-input search: the property at this level - a file whose decoded text holds the
+                # name between characters that cannot belong to an identifier must reach the parser
+                nm = case['name']
+                if impl is not True and re.search(r'(?:^|[ (=,.:\n\t])' + re.escape(nm) + (r'' if case['complete'] else r'(?:$|[ (=,.:\n\t)])'), case['text']) \
+                        and not CL.edge_not_word_char(nm, case['complete']):
+                    ctx.fail('prefilter', 'a file that spells the searched name as a whole word is filtered out before parsing',
+                             case, expected=True, observed=impl,
+                             how='references.search_in_file_ios(None, [file with these bytes], name, complete=..) with '
+                                 'load_module_from_path replaced by a recorder')
         elif stream == 'script':
             gn = key[2]
             model = [gn[m[4]] for m in ans]
@@ -1502,6 +1630,7 @@ def run(ctx):
         cases += timed('sync', stream_sync)
         cases += timed('gitignore', stream_gitignore)
         cases += timed('split', stream_split)
+        cases += timed('prefilter', stream_prefilter)
         cases += timed('script', stream_script)
         if ctx.model_ok:
             t = time.time()
